@@ -286,4 +286,7 @@ def run(rep, tier, only=None):
                  Cond('check_rt3', 300 if tier == 'quick' else 1200),
                  Cond('check_runs', 300 if tier == 'quick' else 1200)]
         runner.run_conditions(rep, H, conds)
+    if not only or 'strtab' in only:
+        from . import strtab
+        strtab.run(rep, tier, 'compressed')
     rep.sample(dict(part='A2', inputs='offset, length, byte symbolic', oracle='ref_lzss.decode_token'))
